@@ -3,7 +3,7 @@
 1. prove Props/C09.vo (closed forms of the preconditioned Pascal/Hilbert transition for every q,
    linearity in the squared scale, merge = composition) and (re)build the Pade/Legendre development
    (Generated/ExpGramConstants.v regenerated from the source by harness/translate_expgram.py,
-   Model/ExpGram.v, Run/ExpGramRun.v, Proofs/ExpGramProofs.v, Proofs/ExpGramProps.v);
+   Model/ExpGram.v, Run/ExpGramRun.v, Proofs/ExpGramProofs.v, Props/C09b.v);
 2. correspondence, all on the REAL implementation (float64 unless stated):
    iwp     prior.transition(dt=h, output_scale=s).preconditioner_apply() of the dense / isotropic /
            block-diagonal integrated Wiener priors vs the Coq model (Model/Prior.v through
@@ -59,7 +59,7 @@ Local Open Scope Z_scope.
 KINDS = ["dense", "iso", "blockdiag"]
 ORDERS = [3, 5, 7, 9, 13]
 MY_V = ["Generated/ExpGramConstants.v", "Model/ExpGram.v", "Run/ExpGramRun.v"]
-MY_PROOFS = ["Proofs/ExpGramProofs.v", "Proofs/ExpGramProps.v"]
+MY_PROOFS = ["Proofs/ExpGramProofs.v", "Props/C09b.v"]
 EG_DIR = os.path.join(lib.WORK, "ocaml_expgram")
 
 # ---- tolerances (recorded in the evidence) ----
@@ -206,7 +206,7 @@ MY_DEPS = {
                          "Model/ExpGram.v", "Generated/ExpGramConstants.v"],
     "Proofs/ExpGramProofs.v": ["Base/Field.v", "Base/Matrix.v", "Base/Solve.v", "Model/Gauss.v", "Model/Prior.v",
                                "Proofs/GaussProofs.v", "Proofs/PriorProofs.v", "Model/ExpGram.v", "Generated/ExpGramConstants.v"],
-    "Proofs/ExpGramProps.v": ["Proofs/ExpGramProofs.v"],
+    "Props/C09b.v": ["Proofs/ExpGramProofs.v"],
 }
 
 
@@ -1261,7 +1261,7 @@ def main():
     proof_errors = list(pr["errors"]) + [e for e in build["errors"]]
     if proof_errors and not ck.violations:
         ck.report("C09.proof", f"proof obligations no longer check: {proof_errors}",
-                  {"broken": pr.get("failed_at", "Props/C09.v / Proofs/ExpGramProps.v"), "errors": proof_errors}, nofail=True)
+                  {"broken": pr.get("failed_at", "Props/C09.v / Props/C09b.v"), "errors": proof_errors}, nofail=True)
     ck.finish(rule="iwp: every (factorisation, q) once plus random (kind, q<=6 (10 thorough), d<=5, dyadic h in [1e-6,1e2], dyadic diagonal base "
               "scales and calibrated scales); merge: (kind, q) grid with h1+h2 exact; expgram-model: random small-integer matrices scaled by a "
               "power of two to hit a prescribed number of doublings, n<=4 (5), all five orders; expgram-ref: six matrix classes x norms up to 50 "
